@@ -39,3 +39,28 @@ func (date *SerializableDate) UnmarshalJSON(data []byte) error {
 
 	return nil
 }
+
+// MarshalYAML implements the yaml.Marshaler interface, so that the YAML form
+// is the same string as the JSON form.
+func (date SerializableDate) MarshalYAML() (interface{}, error) {
+	return date.Format(time.DateOnly), nil
+}
+
+// UnmarshalYAML implements the (function based) yaml.Unmarshaler interface.
+// Without it a YAML decoder sees the embedded time.Time and insists on an
+// RFC 3339 timestamp.
+func (date *SerializableDate) UnmarshalYAML(unmarshal func(interface{}) error) error {
+	var value string
+	if err := unmarshal(&value); err != nil {
+		return fmt.Errorf("unable to parse date from YAML: %w", err)
+	}
+
+	parsed, err := time.Parse(time.DateOnly, value)
+	if err != nil {
+		return fmt.Errorf("unable to parse date from YAML: %w", err)
+	}
+
+	date.Time = parsed
+
+	return nil
+}
